@@ -259,8 +259,36 @@ static int probe_eof(OggVorbis_File *vf,const refdec_t *F,rng_t *r,char *why,siz
   }
   return 0;
 }
-static int recovery_probe(OggVorbis_File *vf,const refdec_t *F,rng_t *r,char *why,size_t wn,int lapfirst){
-  int eof_first= !lapfirst && F->total<=20000 && rng_chance(r,0.4);
+/* "a seek to ANY valid position ... behaves exactly as on a handle that never saw the failure": the first call after the fault cleared is one of the other seek
+   flavours (round 8), made on the recovered handle and on a twin opened on the same bytes that never saw a fault; return code and landing position must agree
+   (the audio after it is then judged against the linear reference by the caller).  Flavour 1 asks for the raw position the handle itself reports, which the
+   library answers without moving the source: whatever the failed call left in the read-ahead buffer is then decoded as if it lay at that offset. */
+static int recovery_other_seek(OggVorbis_File *vf,const unsigned char *bytes,size_t nbytes,const refdec_t *F,rng_t *r,int flavour,ogg_int64_t p,ogg_int64_t *landed,char *why,size_t wn){
+  static const char *fn[]={"","ov_raw_seek(ov_raw_tell())","ov_raw_seek(random offset)","ov_pcm_seek_page","ov_time_seek","ov_time_seek_page"};
+  H t; memset(&t,0,sizeof t); memsrc_init(&t.ms,bytes,nbytes,1);
+  if(ov_open_callbacks(&t.ms,&t.vf,NULL,0,memsrc_cb(&t.ms))){ snprintf(why,wn,"harness: twin open failed"); return -2; }
+  ogg_int64_t x=0; double tt=0; int ra,rb;
+  switch(flavour){
+    case 1: x=ov_raw_tell(vf); if(x<0||x>(ogg_int64_t)nbytes){ ov_clear(&t.vf); snprintf(why,wn,"ov_raw_tell %lld after the fault cleared (file of %zu bytes)",(long long)x,nbytes); return -1; }
+            ra=ov_raw_seek(vf,x); rb=ov_raw_seek(&t.vf,x); break;
+    case 2: x=(ogg_int64_t)rng_range(r,0,(long)nbytes); ra=ov_raw_seek(vf,x); rb=ov_raw_seek(&t.vf,x); break;
+    case 3: x=p; ra=ov_pcm_seek_page(vf,p); rb=ov_pcm_seek_page(&t.vf,p); break;
+    default:{ int l=ref_link_of(F,p); if(l<0) l=0; tt=0; for(int i=0;i<l;i++) tt+=(double)F->l[i].len/F->l[i].rate; tt+=(double)(p-F->l[l].start)/F->l[l].rate; x=p;
+            if(flavour==4){ ra=ov_time_seek(vf,tt); rb=ov_time_seek(&t.vf,tt); } else { ra=ov_time_seek_page(vf,tt); rb=ov_time_seek_page(&t.vf,tt); } }
+  }
+  ogg_int64_t ta=ov_pcm_tell(vf), tb=ov_pcm_tell(&t.vf); ogg_int64_t wa=ov_raw_tell(vf), wb=ov_raw_tell(&t.vf);
+  ov_clear(&t.vf);
+  res_count("recovery_first_call_is_another_seek_flavour",1);
+  if(ra!=rb){ snprintf(why,wn,"%s(%lld) after the fault cleared returned %d, on a handle that never saw the failure %d",fn[flavour],(long long)x,ra,rb); return -1; }
+  if(ra==0 && ta!=tb){ snprintf(why,wn,"%s(%lld) after the fault cleared: ov_pcm_tell %lld, a handle that never saw the failure reports %lld",fn[flavour],(long long)x,(long long)ta,(long long)tb); return -1; }
+  if(ra==0 && wa!=wb){ snprintf(why,wn,"%s(%lld) after the fault cleared: ov_raw_tell %lld, a handle that never saw the failure reports %lld",fn[flavour],(long long)x,(long long)wa,(long long)wb); return -1; }
+  if(ra) return 1;        /* both refuse alike (e.g. raw offset beyond the last page): the plain seeks that follow must still work */
+  if(ta<0||ta>F->total){ snprintf(why,wn,"%s landed at %lld of %lld",fn[flavour],(long long)ta,(long long)F->total); return -1; }
+  *landed=ta; return 0;
+}
+static int recovery_probe(OggVorbis_File *vf,const unsigned char *bytes,size_t nbytes,const refdec_t *F,rng_t *r,char *why,size_t wn,int lapfirst){
+  int eof_first= !lapfirst && F->total<=20000 && rng_chance(r,0.25);
+  int flavour= (!lapfirst && !eof_first)? (int)rng_below(r,6) : 0;
   if(eof_first){ res_count("recovery_starts_with_seek_to_0_and_read_to_the_end",1); if(probe_eof(vf,F,r,why,wn)) return -1; }
   for(int k=0;k<3;k++){
     ogg_int64_t p= F->total>0?(ogg_int64_t)rng_range(r,0,(long)F->total-1):0;
@@ -280,6 +308,8 @@ static int recovery_probe(OggVorbis_File *vf,const refdec_t *F,rng_t *r,char *wh
         if(ref_link_of(F,pos)!=bs) break; pos+=g; skip-=g; }
       if(ov_pcm_tell(vf)!=pos){ snprintf(why,wn,"tell %lld, expected %lld after reading through the lapped region",(long long)ov_pcm_tell(vf),(long long)pos); return -1; }
       res_count("lapped_recovery_seeks_verified",1);
+    }else if(k==0 && flavour){
+      int q=recovery_other_seek(vf,bytes,nbytes,F,r,flavour,p,&pos,why,wn); if(q<0) return -1; if(q>0) continue;
     }else{
     int rs=ov_pcm_seek(vf,p); if(rs){ snprintf(why,wn,"ov_pcm_seek(%lld) after the fault cleared returned %d",(long long)p,rs); return -1; }
     if(ov_pcm_tell(vf)!=p){ snprintf(why,wn,"tell %lld after seek to %lld",(long long)ov_pcm_tell(vf),(long long)p); return -1; }
@@ -397,7 +427,7 @@ static void case_c12(const drvargs_t *a,long id){
       if(fired_open==0){   /* the statement promises recovery for failures AFTER a successful open */
         char why[200];
         if(ov_streams(&h.vf)==F.nlinks && ov_pcm_total(&h.vf,-1)==F.total){
-          if(recovery_probe(&h.vf,&F,&rs,why,sizeof why,(bret<0 && (hash64((uint64_t)id*977u+(uint64_t)kk)&1))? 1+(int)(hash64((uint64_t)id*31u+(uint64_t)kk)%3):0)){ char key[96]; snprintf(key,sizeof key,"no-recovery-after-%s-during-%s",fault_name(fk),scnname[scn]); res_viol("C12",key,"%s@%ld %s: %s: %s",fault_name(fk),kk,persist?"persistent":"one-shot",why,desc); }
+          if(recovery_probe(&h.vf,s.p,s.n,&F,&rs,why,sizeof why,(bret<0 && (hash64((uint64_t)id*977u+(uint64_t)kk)&1))? 1+(int)(hash64((uint64_t)id*31u+(uint64_t)kk)%3):0)){ char key[96]; snprintf(key,sizeof key,"no-recovery-after-%s-during-%s",fault_name(fk),scnname[scn]); res_viol("C12",key,"%s@%ld %s: %s: %s",fault_name(fk),kk,persist?"persistent":"one-shot",why,desc); }
           else nrecov++;
         } else if(fired_open==0 || !truefail){
           /* short/zero/one-byte reads during open may legitimately end the scan early (fewer links seen): safety and termination only */
